@@ -140,7 +140,7 @@ func (c18) Run(t *tape.Tape, tier Tier) *Result {
 // result-equality oracle is checked in any build.
 func (c18r) Run(t *tape.Tape, tier Tier) *Result {
 	res := &Result{}
-	cfg := gen.Config{Alpha: gen.Regular, Swarm: true, MaxDepth: 5, MaxNodes: 10, Boost: gen.GMulti | gen.GAnnot, BoostFactor: 2}
+	cfg := gen.Config{Alpha: gen.Regular, Swarm: true, MaxDepth: 5, MaxNodes: 10, Boost: gen.GMulti | gen.GAnnot, BoostFactor: 2, Alias: true}
 	if t.Bool(1, 4) {
 		cfg.Alpha = gen.Hostile // e.g. payloads that fail to marshal
 	}
